@@ -24,4 +24,15 @@ CLAIMED["C07"] = {
     "technique": "Lean 4 theorems over a hand-written model + differential correspondence check",
 }
 
+CLAIMED["C19"] = {
+    "text": "Theorems for all byte strings / all input texts: hex decode (hex encode b) = b (decode_encode); the encode output is 0x + two lower-case digits per byte + newline (encode_format); every layout of the digits (either case, optional 0x, White_Space anywhere) decodes to the same bytes (decode_layout_indep); odd digit counts and non-hex characters are errors with no output, never panics (decode_rejects, decode_no_panic); whatever decodes is what the digits spell (decode_sound). Tied to src/cmd/hex.rs + permissive_hex by running the real binary (stdin, file and default argument) on all 256 bytes, lengths 0..4096, layouts and malformed inputs, each judged by an independent grammar.",
+    "note": COMMON_NOTE + " clap argument handling and stdin/file reading are contract-level (the binary is run as a subprocess).",
+    "technique": "Lean 4 theorems over a hand-written model + differential correspondence check against the real binary",
+}
+CLAIMED["C15"] = {
+    "text": "Theorems for all signatures with scalars in [1,n-1] and all texts: the printed form is 0x + 64 hex of r + 64 of s + 2 of v=27+parity (print_format); parsing it, with or without 0x, returns the same signature (parse_print, parse_print_no_prefix); whatever parses is a well-formed signature spelt by exactly 130 hex digits (parse_sound); wrong length, non-hex, v outside {27,28}, zero or >= n scalars are errors, never panics (parse_rejects, parse_no_panic). Tied to src/account/signature.rs by printing/parsing random and boundary signatures, every length 0..140, all 256 v bytes and mutated texts; the sign --signature-only | hash --signature pipeline is run against the real binary in the C16 check.",
+    "note": COMMON_NOTE + " ecdsa::Signature::from_scalars modelled at contract level (both scalars in [1, n-1]).",
+    "technique": "Lean 4 theorems over a hand-written model + differential correspondence check",
+}
+
 NOT_YET = {}
